@@ -123,6 +123,11 @@ def run_case(case, built=None, keep_obs=False):
         r0 = obs.runs[0]
         stats['outcome_class'] = (r0.outcome, hashlib.sha1(repr(r0.value).encode()).hexdigest()[:10]
                                   if r0.outcome == 'value' else None)
+    dyn = set()
+    for r in refs.values():
+        dyn |= r.dyn
+    if faults:
+        dyn |= gen.pessimistic_tags(prog)
     stats['invocations'] = sum(1 for r in obs.trace if r['k'] == 'body_start')
     if obs.pending_tasks_after_drain and not obs.verdict:
         findings.append(monitors.F(['C13'], 'tasks_pending_after_drain', n=obs.pending_tasks_after_drain,
@@ -134,7 +139,7 @@ def run_case(case, built=None, keep_obs=False):
             findings.append(monitors.F(['C07'], 'dag_mutated_by_run', parts=diff))
     # engine-artefact diagnostics from the loop's exception handler (never verdicts)
     stats['unhandled'] = len(obs.unhandled)
-    res = {'findings': findings, 'stats': stats, 'refs': refs}
+    res = {'findings': findings, 'stats': stats, 'refs': refs, 'dyn_tags': sorted(dyn)}
     if keep_obs:
         res['obs'] = obs
     if own:
